@@ -136,7 +136,9 @@ type walker struct {
 	// OnReturn is called at each Return with evaluated results.
 	OnReturn func(w *walker, st *wstate, ret *ssa.Return, results []*absVal)
 	// OnPanic is called at each Panic.
-	OnPanic   func(w *walker, st *wstate, p *ssa.Panic)
+	OnPanic func(w *walker, st *wstate, p *ssa.Panic)
+	// Init may pre-populate the memory of the initial state (e.g. the elements of a slice parameter).
+	Init      func(w *walker, st *wstate)
 	MaxVisits int // per block per path (default 2)
 	MaxPaths  int
 	paths     int
@@ -151,6 +153,9 @@ func (w *walker) Run() {
 		w.MaxPaths = 200000
 	}
 	st := &wstate{vals: map[ssa.Value]*absVal{}, mem: map[string]*absVal{}, allocd: map[string]bool{}, visits: map[*ssa.BasicBlock]int{}}
+	if w.Init != nil {
+		w.Init(w, st)
+	}
 	w.block(st, w.fn.Blocks[0], nil)
 }
 
@@ -314,6 +319,14 @@ func (w *walker) transfer(st *wstate, in ssa.Instruction, prev *ssa.BasicBlock) 
 		b := w.eval(st, x.X)
 		if b.k == avPtr {
 			st.vals[x] = &absVal{k: avPtr, key: b.key + "." + fieldName(x.X.Type(), x.Field)}
+		} else {
+			st.vals[x] = avSymOf(x)
+		}
+	case *ssa.IndexAddr:
+		// element of an array cell or of a slice modelled as a pointer to its backing array
+		b, i := w.eval(st, x.X), w.eval(st, x.Index)
+		if b.k == avPtr && i.k == avConst {
+			st.vals[x] = &absVal{k: avPtr, key: b.key + "[" + i.c.ExactString() + "]"}
 		} else {
 			st.vals[x] = avSymOf(x)
 		}
